@@ -13,7 +13,7 @@ def row_ok(r):
     const = ((t - 1070) // 10 + 1) if (m4 or m7) else 0
     disp = 4 if m4 else 7 if m7 else t if t in (1005, 1006) else 0
     want = dict(msm4=m4, msm7=m7, msm=m4 or m7, const=const, title=True, hdr=m4 or m7, dec4=m4, dec7=m7,
-                s1005=t == 1005, s1006=t == 1006, ts=m4 or m7, tsany=m4 or m7, dispatch=disp, display=True)
+                s1005=t == 1005, s1006=t == 1006, ts=m4 or m7, tsany=m4 or m7, dec4any=m4, dec7any=m7, dispatch=disp, display=True)
     return [k for k in want if r[k] != want[k]]
 
 
@@ -29,8 +29,8 @@ def run(res, args):
     common.step_A(res)
     # the oracle on the table itself names the failing type when the theorem no longer checks
     src = open(os.path.join(common.COQ, "gen", "ClassifyTable.v")).read()
-    rows = re.findall(r"mkRow \((-?\d+)\) (\w+) (\w+) (\w+) (-?\d+) (\w+) (\w+) (\w+) (\w+) (\w+) (\w+) (\w+) (\w+) (\d+) (\w+)", src)
-    keys = ["t", "msm4", "msm7", "msm", "const", "title", "hdr", "dec4", "dec7", "s1005", "s1006", "ts", "tsany", "dispatch", "display"]
+    rows = re.findall(r"mkRow \((-?\d+)\) (\w+) (\w+) (\w+) (-?\d+) (\w+) (\w+) (\w+) (\w+) (\w+) (\w+) (\w+) (\w+) (\w+) (\w+) (\d+) (\w+)", src)
+    keys = ["t", "msm4", "msm7", "msm", "const", "title", "hdr", "dec4", "dec7", "s1005", "s1006", "ts", "tsany", "dec4any", "dec7any", "dispatch", "display"]
     seen = set()
     for row in rows:
         r = {}
